@@ -517,6 +517,10 @@ class ExprMixin:
         """Full Python attribute lookup. raw=True: object.__getattribute__ semantics (no __getattr__ hook)."""
         if isinstance(obj, SRef):
             return self.getattr_ref(st, obj, attr, node, default, raw)
+        if isinstance(obj, RecRepeated):
+            if attr in ("append", "extend"):
+                return [(st, BoundMethod(("recrep", attr), obj))]
+            raise Unsupported(f"attribute {attr} of a repeated protobuf field", node)
         if isinstance(obj, RecSlot):
             if attr == "CopyFrom":
                 return [(st, BoundMethod(("recslot", "CopyFrom"), obj))]
@@ -660,6 +664,8 @@ class ExprMixin:
                 fd = self.record_field(classes[0], attr)
                 if fd is not None and fd.message_type is not None and fd.label != fd.LABEL_REPEATED:
                     got = [(s2, RecSlot(ref, attr) if v is None else v) for s2, v in got]
+                if fd is not None and fd.label == fd.LABEL_REPEATED:
+                    got = [(s2, RecRepeated(ref, attr) if isinstance(v, tuple) else v) for s2, v in got]
                 out.extend(got)
             elif kind == "property":
                 # property getters of repo classes are executed (inlined) unless a contract abstracts them: treating a
